@@ -55,8 +55,11 @@ def _rand_leaf(rng, allow_tensor=True):
         return rng.randrange(0, 4)
     if r < 0.45:
         return rng.choice(["a", "b", ""])
-    if r < 0.6:
+    if r < 0.5:
         return [rng.randrange(3) for _ in range(rng.randrange(0, 3))]
+    if r < 0.6:
+        # a list leaf holding mutable elements (a buffer of records): the dataset may advance them in place
+        return [[rng.randrange(3)], {"n": rng.randrange(3)}][: rng.randrange(1, 3)]
     if r < 0.7:
         return None
     if r < 0.8:
@@ -108,6 +111,14 @@ def _mutate(rng, state) -> Tuple[Any, str]:
         return state, "add"
     if r < 0.5:
         if isinstance(cur, list):
+            inner = [x for x in cur if isinstance(x, (list, dict))]
+            if inner and rng.random() < 0.7:
+                x = rng.choice(inner)
+                if isinstance(x, list):
+                    x.append(rng.randrange(3))
+                else:
+                    x["n"] = x.get("n", 0) + 1
+                return state, "inplace_nested"
             cur.append(rng.randrange(3))
             return state, "inplace_list"
         if isinstance(cur, torch.Tensor):
@@ -227,7 +238,7 @@ def run_history(desc: Dict[str, Any]):
     return {"init": init_snapshot, "steps": steps, "tags": tags}
 
 
-NONTRIVIAL_TAGS = {"delete", "dict_to_leaf", "leaf_to_dict", "inplace_list", "inplace_tensor", "inplace_root_list"}
+NONTRIVIAL_TAGS = {"delete", "dict_to_leaf", "leaf_to_dict", "inplace_list", "inplace_tensor", "inplace_root_list", "inplace_nested"}
 
 
 def check_history(ctx: Ctx, desc, drv_requests, drv_meta):
